@@ -69,3 +69,22 @@ Definition check20 (c : c20case) : bool * bool :=
 
 Definition run_c20 (cases : list c20case) : list N * list N :=
   (failing (fun c => fst (check20 c)) cases, failing (fun c => snd (check20 c)) cases).
+
+(* "only strict improvements": when the recorder sits behind a single-objective tracker, the individual it is told is a new best is
+   exactly the first one or one strictly better (in the declared direction) than every earlier one - computed here from the fitness
+   table alone *)
+Inductive c20fcase := K20F (t : table) (mn : bool) (regs : list (N * bool)).
+Fixpoint flags_ok (mn : bool) (ff : N -> list Q) (best : option Q) (regs : list (N * bool)) : bool :=
+  match regs with
+  | [] => true
+  | (i, f) :: r =>
+      match ff i with
+      | c :: _ =>
+          let key := if mn then (- c)%Q else c in
+          let isb := match best with None => true | Some b => negb (Qle_bool key b) end in
+          Bool.eqb f isb && flags_ok mn ff (if isb then Some key else best) r
+      | [] => false
+      end
+  end.
+Definition run_c20f (cases : list c20fcase) : list N * list N :=
+  ([], failing (fun c => match c with K20F t mn regs => flags_ok mn (ff_of t) None regs end) cases).
